@@ -78,6 +78,88 @@ def _series_name(node):
     return None
 
 
+def _writer_assignments():
+    """name -> the expression of its ONLY assignment inside PrintOutputs (simple aliases of bounds)"""
+    repo_src = os.path.join(os.environ.get("VERIF_REPO", "/repo"), "src")
+    tree = ast.parse(open(os.path.join(repo_src, "geophires_x", "Outputs.py"), encoding="utf-8").read())
+    fn = next(n for n in ast.walk(tree) if isinstance(n, ast.FunctionDef) and n.name == "PrintOutputs")
+    seen = {}
+    for n in ast.walk(fn):
+        if isinstance(n, ast.Assign) and len(n.targets) == 1 and isinstance(n.targets[0], ast.Name):
+            seen.setdefault(n.targets[0].id, []).append(n.value)
+    return {k: v[0] for k, v in seen.items() if len(v) == 1}
+
+
+def _count_to_z3(e, env, L, tpy, cy, depth=0):
+    """an integer expression built from the run sizes, series lengths, len(range(...)) and single-assignment aliases"""
+    if depth > 6:
+        return None
+    rec = lambda x: _count_to_z3(x, env, L, tpy, cy, depth + 1)
+    if isinstance(e, ast.Constant) and isinstance(e.value, int) and not isinstance(e.value, bool):
+        return z3.IntVal(e.value)
+    if isinstance(e, ast.Name):
+        return rec(env[e.id]) if e.id in env else None
+    if isinstance(e, ast.Attribute):
+        return {"model.economics.timestepsperyear.value": tpy, "model.surfaceplant.plant_lifetime.value": L,
+                "model.surfaceplant.construction_years.value": cy}.get(ast.unparse(e))
+    if isinstance(e, ast.BinOp) and isinstance(e.op, (ast.Add, ast.Sub, ast.Mult)):
+        a, b = rec(e.left), rec(e.right)
+        if a is None or b is None:
+            return None
+        return a + b if isinstance(e.op, ast.Add) else a - b if isinstance(e.op, ast.Sub) else a * b
+    if isinstance(e, ast.Call) and ast.unparse(e.func) == "len" and len(e.args) == 1:
+        a = e.args[0]
+        if isinstance(a, ast.Name) and a.id in env:
+            a = env[a.id]
+        if isinstance(a, ast.Call) and ast.unparse(a.func) == "range":
+            r = _range_bounds(a, rec)
+            if r is None:
+                return None
+            lo, hi, st = r
+            return z3.If(hi > lo, (hi - lo + st - 1) / st, 0)          # len(range(lo, hi, st)) for st >= 1
+        if isinstance(a, ast.Attribute) and a.attr == "value" and isinstance(a.value, ast.Attribute):
+            name = a.value.attr
+            return L * tpy if name in PER_STEP else L if name in ANNUAL else cy + L if name in PADDED else None
+    return None
+
+
+def _range_bounds(call, rec):
+    args = call.args
+    if not 1 <= len(args) <= 3:
+        return None
+    lo = z3.IntVal(0) if len(args) == 1 else rec(args[0])
+    hi = rec(args[0]) if len(args) == 1 else rec(args[1])
+    st = z3.IntVal(1) if len(args) < 3 else rec(args[2])
+    if lo is None or hi is None or st is None:
+        return None
+    return lo, hi, st
+
+
+def _row_count_vc(lp, want):
+    """an unrecognised range(...) header whose bounds can still be read: decide 'one row per year' by z3
+    -> (ok, detail) or None when the bounds cannot be read"""
+    if not (isinstance(lp.iter, ast.Call) and ast.unparse(lp.iter.func) == "range"):
+        return None
+    L, tpy, cy = z3.Ints("L tpy cy")
+    env = _writer_assignments()
+    r = _range_bounds(lp.iter, lambda x: _count_to_z3(x, env, L, tpy, cy))
+    if r is None:
+        return None
+    lo, hi, st = r
+    rows = z3.If(hi > lo, (hi - lo + st - 1) / st, 0)
+    expect = cy + L if want == "all-years" else L
+    s = z3.Solver()
+    s.set("timeout", 20000)
+    s.add(L >= 1, tpy >= 1, cy >= 1, st >= 1, z3.Not(z3.And(rows == expect, lo == 0, st == 1)))
+    res = s.check()
+    if res == z3.unsat:
+        return True, "bounds read through aliases; row count proved"
+    if res == z3.sat:
+        m = s.model()
+        return False, f"z3: rows = {m.eval(rows)} for lifetime {m[L]}, steps per year {m[tpy]}, construction years {m[cy]}"
+    return None
+
+
 @ground_check("C09", "profile-loops-write-one-row-per-year-in-order")
 def loop_structure():
     items = []
@@ -86,10 +168,25 @@ def loop_structure():
     for lp in loops:
         where = f"Outputs.PrintOutputs loop at line {lp.lineno} over {ast.unparse(lp.iter)[:60]}"
         cls = _classify_iter(lp.iter)
-        items.append({"name": f"{where}: runs over the years (or segments) with step 1", "ok": cls is not None,
-                      "undecided": cls is None and not _looks_like_a_year_loop(lp.iter),
-                      "detail": "" if cls else "unrecognised loop header"})
-        if cls is None or not isinstance(lp.target, ast.Name):
+        if cls is None and isinstance(lp.target, ast.Name):
+            # not one of the literal headers: read the bounds through single-assignment aliases, len(range(...)) and
+            # series lengths, and let z3 decide the row count for all lifetimes / steps per year / construction years
+            names0 = {_series_name(n) for n in ast.walk(lp) if isinstance(n, ast.Subscript)}
+            want0 = "all-years" if names0 & PADDED else "operating-years"
+            vc = _row_count_vc(lp, want0) if not (names0 & PER_SEGMENT) else None
+            if vc is not None:
+                items.append({"name": f"{where}: one row per {'construction and operating' if want0 == 'all-years' else 'operating'} year",
+                              "ok": vc[0], "detail": vc[1]})
+                if vc[0]:
+                    cls = (want0, 0)
+                else:
+                    continue
+        if cls is None:
+            items.append({"name": f"{where}: runs over the years (or segments) with step 1", "ok": False,
+                          "undecided": not _looks_like_a_year_loop(lp.iter), "detail": "unrecognised loop header"})
+            continue
+        items.append({"name": f"{where}: runs over the years (or segments) with step 1", "ok": True, "detail": ""})
+        if not isinstance(lp.target, ast.Name):
             continue
         var = lp.target.id
         writes = [n for n in ast.walk(lp) if isinstance(n, ast.Call) and ast.unparse(n.func) == "f.write"]
@@ -155,6 +252,12 @@ def index_bounds():
     length = {"per-step": L * tpy, "annual": L, "padded": cy + L, "per-segment": z3.IntVal(4)}
     for lp in _writer_loops():
         cls = _classify_iter(lp.iter)
+        if cls is None and isinstance(lp.target, ast.Name):
+            names0 = {_series_name(n) for n in ast.walk(lp) if isinstance(n, ast.Subscript)}
+            want0 = "all-years" if names0 & PADDED else "operating-years"
+            vc = _row_count_vc(lp, want0) if not (names0 & PER_SEGMENT) else None
+            if vc is not None and vc[0]:
+                cls = (want0, 0)
         if cls is None or not isinstance(lp.target, ast.Name):
             continue
         var = lp.target.id
